@@ -39,6 +39,9 @@ type RecBucket struct {
 	FailName func(kind, name string) bool
 	// Sticky: once a failure was injected keep failing the same (kind,name).
 	Sticky bool
+	// FailBody: Get of a matching object succeeds but the returned reader fails after half of
+	// the bytes (a transfer cut in the middle); logged as an extra op of kind "getbody".
+	FailBody func(kind, name string) bool
 	// ModTime, when set, overrides the last-modified time reported by
 	// IterWithAttributes (ok=false keeps the underlying value; a zero time
 	// means "not available").
@@ -134,6 +137,17 @@ func (b *RecBucket) Get(ctx context.Context, name string) (io.ReadCloser, error)
 	if err != nil && b.Bucket.IsObjNotFoundErr(err) {
 		b.markNotFound("get", name)
 	}
+	if err == nil && b.FailBody != nil && b.FailBody("get", name) {
+		data, rerr := io.ReadAll(r)
+		r.Close()
+		if rerr != nil {
+			return nil, rerr
+		}
+		b.mu.Lock()
+		b.ops = append(b.ops, Op{Kind: "getbody", Name: name, Seq: len(b.ops), Failed: true})
+		b.mu.Unlock()
+		return &cutReader{data: data[:len(data)/2]}, nil
+	}
 	return r, err
 }
 
@@ -179,3 +193,20 @@ func (b *RecBucket) IsObjNotFoundErr(err error) bool {
 	}
 	return b.Bucket.IsObjNotFoundErr(err)
 }
+
+// cutReader returns its data and then fails instead of reporting EOF.
+type cutReader struct {
+	data []byte
+	off  int
+}
+
+func (c *cutReader) Read(p []byte) (int, error) {
+	if c.off >= len(c.data) {
+		return 0, ErrInjected
+	}
+	n := copy(p, c.data[c.off:])
+	c.off += n
+	return n, nil
+}
+
+func (c *cutReader) Close() error { return nil }
